@@ -206,4 +206,66 @@ def valOKj (e : BEnv) (Γ : Ctx) (fac : Factory) : Nat → ClassId → Val → B
        | _, _ => false)
     | none => false
 
+/-! ### the same fragment with the ambiguity condition moved to the class universe -/
+
+/-- a decidable condition on the class universe alone: no loaded class has a loaded subclass, so
+`bind_complex_type` never builds a candidate pool.  A pool always holds a class together with a
+subclass that inherits its keys, and the dictionary of a base-class instance then matches both:
+the universes outside this condition are exactly those in which `C04-subclass-ambiguity` can
+occur (there the per-instance condition `poolOKj` of `valOKj` decides). -/
+def noSubclassPools (Γ : Ctx) : Bool :=
+  Γ.classes.all fun ci => (subclassesOf Γ ci.id).isEmpty
+
+/-- the instance's class is the declared (loaded) class or one of its loaded subclasses -/
+def memPool (Γ : Ctx) (k : ClassId) (x : Val) : Bool :=
+  match x with
+  | .obj k' _ => (Γ.find k).isSome && (subclassesOf Γ k ++ [k]).contains k'
+  | _ => false
+
+def itemOKu (ok : ClassId → Val → Bool) (Γ : Ctx) (var : XmlVar) (x : Val) : Bool :=
+  match x with
+  | .none => defaultNone var
+  | .prim p => var.types == [.prim (pvalType p)]
+  | .obj k' _ =>
+    (match var.clazz with
+     | some k => ok k' x && memPool Γ k x
+     | none => false)
+  | _ => false
+
+def typedValueOKu (ok : ClassId → Val → Bool) (Γ : Ctx) (var : XmlVar) (x : Val) : Bool :=
+  if var.listElement then
+    (match x with
+     | .list items => items.all (itemOKu ok Γ var)
+     | _ => false)
+  else
+    (match x with
+     | .list _ => false
+     | _ => itemOKu ok Γ var x)
+
+def valueOKu (ok : ClassId → Val → Bool) (Γ : Ctx) (var : XmlVar) (x : Val) : Bool :=
+  if var.isAttributes then attrsValueOKj x
+  else if var.isWildcard then wildValueOKj ok var x
+  else typedValueOKu ok Γ var x
+
+/-- `valOKj` without its per-instance ambiguity condition: only typing -/
+def valOKu (e : BEnv) (Γ : Ctx) (fac : Factory) : Nat → ClassId → Val → Bool
+  | 0, _, _ => false
+  | n + 1, c, v =>
+    match asObject v with
+    | some (c', fs) =>
+      c' == c && c != derivedId
+      && (isAnyV v == decide (c = anyId)) &&
+      (match Γ.find c, metaOf Γ c with
+       | some ci, .ok m =>
+         classOKj ci m && ci.id == c
+         && fs.map (·.1) == ci.fields.map (·.name)
+         && (allVars m).all (fun var =>
+              match kvGet fs var.name with
+              | some x => valueOKu (valOKu e Γ fac n) Γ var x && (var.init || fixedOK e var x)
+              | none => false)
+         && fs.all (fun kv => ci.fields.all (fun f => f.name != kv.1 ||
+              (if f.init then keptBy fac kv.2 || defaultIs f .none else defaultIs f kv.2)))
+       | _, _ => false)
+    | none => false
+
 end Xs.Dict
